@@ -106,12 +106,52 @@ def run_driver(args, timeout=600):
     if rc is None:
         raise HarnessError("driver timed out: %s" % " ".join(args))
     if rc != 0:
+        lib = library_panic(err or "")
+        if lib and "-out" in args:
+            # the real code crashed on the driver's input: that is behaviour of the real code, not harness trouble.
+            # Record it as a trace line that no specification action explains.
+            path = args[args.index("-out") + 1]
+            first = {}
+            n = 0
+            try:
+                with open(path) as f:
+                    for n, line in enumerate(f, 1):
+                        if n == 1:
+                            first = json.loads(line)
+            except Exception:
+                pass
+            with open(path, "a") as f:
+                if n == 0:
+                    f.write(json.dumps({"ev": "reset", "ro": 0}) + "\n")
+                    n = 1
+                f.write(json.dumps({"ev": "panic", "where": lib, "stderr": (err or "")[:1500]}) + "\n")
+            return {"seed": first.get("seed", 0), "row": first.get("row", "?"), "mode": first.get("mode", "?"), "events": n + 1,
+                    "comp": {}, "stats": {}, "panicked": True, "ops": 0, "installs": 0, "injected": 0, "fault": first.get("fault", ""),
+                    "batches": 0, "storage_ops": 0, "crash_points": 0, "reopens": 0, "nested_reopens": 0, "distinct_outcomes": 0,
+                    "outcomes_differing_from_clean": 0, "followups": 0, "recovers": 0, "with_table_damage": 0, "settled": True,
+                    "runs": 0, "answered_from_buffers": 0, "pending": 0, "procs": 0}
         raise HarnessError("driver failed (%s): %s\n%s" % (rc, " ".join(args), (err or "")[-3000:]))
     lines = [x for x in out.strip().splitlines() if x.strip()]
     try:
         return json.loads(lines[-1])
     except Exception:
         raise HarnessError("driver printed no summary: %s\n%s" % (" ".join(args), out[-2000:]))
+
+
+def library_panic(stderr):
+    """If the process died of a Go panic / fatal error raised inside goleveldb (not inside the harness), return the frame."""
+    i = max(stderr.find("panic:"), stderr.find("fatal error:"))
+    if i < 0:
+        return None
+    for line in stderr[i:].splitlines()[1:]:
+        line = line.strip()
+        if not line or line.startswith("goroutine ") or line.startswith("[signal") or line.startswith("/") or line.startswith("panic(") \
+                or line.startswith("runtime.") or line.startswith("created by") or line.startswith("sync.") or line.startswith("sync/"):
+            continue
+        if "github.com/syndtr/goleveldb" in line:
+            return line.rsplit("(", 1)[0][-120:]
+        return None          # first real frame is harness code (or something else): harness trouble
+    return None
 
 
 def parallel(fn, items, workers=None):
